@@ -46,6 +46,10 @@ def addSupLink : List SupLink → Nat → Nat → Sig → List SupLink
 
 def findLink (ls : List SupLink) (src : Nat) : Option SupLink := ls.find? (fun l => l.src == src)
 
+/-- `AddSupLink` of every signature of `extra` into `base` (ApplyBlock on an already applied block) -/
+def mergeSup (base extra : List SupLink) : List SupLink :=
+  extra.foldl (fun acc l => l.sigs.reverse.foldl (fun acc2 sg => addSupLink acc2 l.src l.srcHeight sg) acc) base
+
 /-- `SupLink.IsMajority` -/
 def isMajority (l : SupLink) (nVal : Nat) : Bool := l.sigs.length > nVal * 2 / 3
 
@@ -401,9 +405,10 @@ def State.applySupLinks (s : State) (tgt : Nat) : List SupLink → Tree → List
     after the node's own vote was added (this is what `SaveBlock` then stores).
     On failure the in-memory tree keeps the mutations made before the error. -/
 def State.applyBlock (s : State) (b : Header) : State × Bool × List SupLink :=
-  -- idempotence: a node with this block's hash exists
+  -- idempotence: a node with this block's hash exists; the verifications recorded for that
+  -- checkpoint are merged into the block's sup links (the block is about to be saved again)
   match s.tree.find (byHash b.id) with
-  | some _ => (s, true, b.sup)
+  | some tn => (s, true, mergeSup b.sup tn.ckpt.sup)
   | none =>
     -- applyBlockToCheckpoint
     match s.ensureNode s.fuel s.tree b.parent with
@@ -622,7 +627,12 @@ def State.restart (s : State) : Option State :=
       -- NewCasper: the first element must be genesis or finalized
       else if first.height != 0 && first.status != .finalized then none
       else
-        some { s with tree := s.buildTree true (rest.length + 1) first rest, orphans := [], prevOrphans := [] }
+        let s1 := { s with tree := s.buildTree true (rest.length + 1) first rest, orphans := [], prevOrphans := [] }
+        -- NewChain applies the best block again: the growing checkpoint of the blocks past the
+        -- last epoch boundary is rebuilt (a failure is only logged)
+        match s1.header s1.best with
+        | some bh => let (s2, ok, _) := s1.applyBlock bh; some (if ok then s2 else s1)
+        | none => some s1
   | _, _ => none
 
 end BytomModel.Node
